@@ -19,6 +19,6 @@ def run(seed, tier, replay=None):
     result["impl_failures"] = t["impl_failures"]
     r = mix.merge(result, tim.run_family("slow", seed, tier, 8, 80))
     # the deadline counts running time: stop/continue before the deadline, in the grace period
-    return mix.merge(r, tim.run_family("stop", seed, tier, 3, 24, kinds=("early", "late", "signalled", "model", "hang")))
+    return mix.merge(r, tim.run_family("stop", seed, tier, 3, 24, kinds=("early", "late", "signalled", "model", "hang", "result")))
 
 KNOWN_MATCHERS = {}
